@@ -47,10 +47,16 @@ def gen_sup(rnd, case):
         v = 't%d' % i
         nodes.append(v)
         edges.append([u, v])
+    # options of one supplementary choice may share their NAME and differ only in their reference object
+    refs = {}
+    for c in sel:
+        if rnd.random() < .25:
+            for j_, o_ in enumerate(c['options']):
+                refs[o_] = ['Opt_' + c['key'], 'ref%d' % j_]
     order = [c['key'] for c in sel]
     if rnd.random() < .6:
         rnd.shuffle(order)     # mappings need not be registered parents-first
-    return {'nodes': nodes, 'edges': edges, 'start': ['s0'], 'sel': sel, 'mapping_order': order}
+    return {'nodes': nodes, 'edges': edges, 'start': ['s0'], 'sel': sel, 'mapping_order': order, 'refs': refs}
 
 
 def expected_assign(sup, src_assign, src_nodes, model):
